@@ -8,6 +8,7 @@ import (
 	"reflect"
 	"strings"
 	"testing"
+	"time"
 
 	"github.com/open2b/scriggo"
 	"github.com/open2b/scriggo/native"
@@ -44,7 +45,10 @@ type TmplCase struct {
 func ctxOf(kind string) context.Context {
 	switch kind {
 	case "background":
-		return context.Background()
+		// a generated program that does not terminate under Scriggo is C01's finding, not C05's:
+		// the deadline lets the run end (Run then returns the context's error)
+		c, _ := context.WithTimeout(context.Background(), 3*time.Second)
+		return c
 	case "cancelled":
 		c, cancel := context.WithCancel(context.Background())
 		cancel()
@@ -84,10 +88,22 @@ func judgeProg(c ProgCase) string {
 	p, res := sg.BuildProgram(c.Src, sg.Opts{})
 	if res.BuildPanic != nil || res.BuildErr != nil {
 		ev.Excluded("program_does_not_build") // C03/C04's business
+		if res.BuildErr != nil {
+			m := res.BuildErr.Error()
+			if i := strings.LastIndex(m, ": "); i >= 0 {
+				m = m[i+2:]
+			}
+			ev.Label("builderr_" + m)
+		}
 		return ""
 	}
 	ctx := ctxOf(c.Ctx)
 	r := sg.RunProgram(p, sg.Opts{Ctx: ctx, NoPrint: !c.Hook})
+	if r.RunErr == context.DeadlineExceeded {
+		ev.Excluded("program_does_not_terminate_within_3s")
+		ev.Note("does not terminate under Scriggo: %s", c.Src)
+		return ""
+	}
 	if r.RunPanic != nil {
 		lastSite = where(r.Stack)
 		return fmt.Sprintf("Run panicked into the host: %v\n at %s", r.RunPanic, lastSite)
@@ -159,7 +175,7 @@ func init() {
 
 func classify(msg string) string { return "" }
 
-var ctxKinds = []string{"none", "none", "background", "cancelled"}
+var ctxKinds = []string{"background", "background", "background", "cancelled"}
 
 func TestPropPrograms(t *testing.T) {
 	ev.Check(t, ev.N{Quick: 6000, Thorough: 600000}, func(t *rapid.T) {
@@ -227,6 +243,11 @@ func TestPropTemplates(t *testing.T) {
 			ev.Label("generated_" + format)
 		}
 		for range c.Vars {
+			if c.Name != "" && len(c.Vars) == 3 && rapid.IntRange(0, 4).Draw(t, "urlstr") != 0 {
+				// URL-state templates: mostly strings with URL punctuation, incl. the empty string
+				c.Values = append(c.Values, vals.TV{T: vals.T{K: "string"}, V: vals.V{S: []byte(rapid.SampledFrom(opts.Strings).Draw(t, "us"))}})
+				continue
+			}
 			c.Values = append(c.Values, vals.Gen(t, opts))
 		}
 		c.Ctx = rapid.SampledFrom(ctxKinds).Draw(t, "ctx")
